@@ -185,8 +185,10 @@ def completion_point(f, name):
         if t["t"] != "switch":
             continue
         e = f.ex.operand(t["d"])
-        if e[0] == "discr" and any(x[0] == "call" and x[1] == FEIG + "cancel_transaction_by_receipt_no" for x in walk(e)) and \
-                any(x[0] == "call" and x[1] == "core::ops::try_trait::Try::branch" for x in walk(e)):
+        # the `?` applied to the awaited reversal: discr(Try::branch(<.. cancel_transaction_by_receipt_no(..) ..>))
+        inner = strip_ref(e[1]) if e[0] == "discr" else None
+        if inner is not None and inner[0] == "call" and inner[1] == "core::ops::try_trait::Try::branch" and inner[2] and \
+                any(x[0] == "call" and x[1] == FEIG + "cancel_transaction_by_receipt_no" for x in walk(inner[2][0])):
             return switch_target(t, 0)
     return None
 
